@@ -40,6 +40,12 @@ def load_spec(modules):
     env["implies"] = lambda a, b: (not a) or bool(b)
     env["forall"] = lambda lo, hi, f: all(f(i) for i in range(lo, hi))
     env["LEN"] = len
+
+    def same(a, b):
+        if isinstance(a, float) and isinstance(b, float) and a != a and b != b:
+            return True
+        return type(a) is type(b) and a == b
+    env["same"] = same
     return env
 
 
